@@ -46,6 +46,12 @@ theorem load_total (w : World) (S : Nat) (hb : Bounded w S) (roots : List Node) 
     have h3 : fresh w s * (S + 1) ≤ w.texts.length * (S + 1) := Nat.mul_le_mul_right _ h2
     omega
 
+/-- more fuel never changes a result that is not `outOfFuel`: the fuel index is only a device to make the
+    loader total and executable — together with `resolve_total` every wrapper has ONE outcome -/
+theorem resolve_fuel_mono (w : World) (fuel : Nat) (n : Node) (st : St)
+    (h : resolve w fuel n st ≠ .outOfFuel) : resolve w (fuel + 1) n st = resolve w fuel n st :=
+  resolve_fuel_mono_aux w fuel n st h
+
 /-- the in-progress set (`visitedRefs`) only grows along a successful walk: a text is removed only by the
     resolver that inserted it -/
 theorem inprogress_only_grows (w : World) (fuel : Nat) (n : Node) (st st' : St)
